@@ -24,8 +24,8 @@ Valid(e, o) ==
   /\ e.err_units <= 1 /\ e.range = TRUE
   /\ IF o.kind = "rel"
        THEN /\ e.rel = o.rel.id /\ e.ri = o.ri /\ e.gi = o.gi /\ e.relkind = o.rel.kind
-            /\ e.rangef = o.range.f /\ e.amp = o.rel.amp /\ e.npts >= MinPoints
-       ELSE /\ CSame(e.z, o.z) /\ e.k = o.k /\ CSame(e.expect, o.expect) /\ e.npts >= 1
+            /\ e.rangef = o.range.f /\ e.rangeclosed = (o.range.loClosed /\ o.range.hiClosed) /\ e.amp = o.rel.amp /\ e.npts >= o.minpts
+       ELSE /\ CSame(e.z, o.z) /\ e.k = o.k /\ CSame(e.expect, o.expect) /\ e.npts >= o.minpts
 
 Init == l = 1 /\ pos = 1 /\ strict = FALSE /\ TLCSet(1, 0)
 Step == /\ l <= NRec
